@@ -147,3 +147,14 @@ var ghost = map[string]interface{}{}
 
 func Ghost(k string) interface{}       { return ghost[k] }
 func SetGhost(k string, v interface{}) { ghost[k] = v }
+
+
+// ---- C11: logical threads, lock events and the race query (engine intrinsics) ----
+
+func CurrentThread() int                         { return 0 }
+func ThreadBegin(id int)                         {}
+func ThreadEnd()                                 {}
+func LockEvent(m interface{}, acquire bool)      {}
+func HeldByCurrentThread() int                   { return 0 }
+func RaceCheck(specs string)                     {}
+func Touch(resource string, write bool)          {}
